@@ -76,29 +76,35 @@ def add_rules(rep, prog):
     S = Sym(prog)
     summ, _ = run_function(S, f)
     loops = [(k, v) for k, v in S.loopinfo.items() if v["func"] == q]
-    if len(loops) != 1 or "supergraph" not in str(loops[0][1]["changed"]) and len(loops[0][1]["changed"]) != 2:
-        raise Inconclusive("add_edges: expected one insertion loop carrying the graph and the candidate index", f.node)
+    if len(loops) != 1:
+        raise Inconclusive("add_edges: expected one insertion loop", f.node)
     lid, li = loops[0]
     graphs = [k for k, v in li["init"].items() if v[0] == "method" and v[2] == "copy"]
-    idxs = [k for k, v in li["init"].items() if is_const(v, 0)]
-    if len(graphs) != 1 or len(idxs) != 1:
-        raise Inconclusive("add_edges: loop state is not (graph copy, index 0): %s" % {k: fmt(v)[:40] for k, v in li["init"].items()}, f.node)
-    g, i = graphs[0], idxs[0]
+    if len(graphs) != 1:
+        raise Inconclusive("add_edges: the loop does not carry exactly one working graph: %s" % {k: fmt(v)[:40] for k, v in li["init"].items()}, f.node)
+    g = graphs[0]
     B = li["init"][g][1]
     rep.check("BIN.add", B in BINS, fwhere(f), "works on a copy of the 0/1 pattern of A", "the working graph is a copy of %s, not of the 0/1 pattern" % fmt(B)[:60])
-    mug, mui = ("mu", lid, g), ("mu", lid, i)
-    # candidates
+    mug = ("mu", lid, g)
+    counters = [k for k, v in li["init"].items() if is_const(v, 0)]
+    is_for = li["iter"] is not None
+    # ---- candidate
     stores = S.select("store", qname=q)
     if len(stores) != 1:
         rep.bad("CAND.store", fwhere(f), "each round must set exactly one entry of the candidate graph (found %d stores)" % len(stores))
         return
     st = stores[0]
-    okc = st.base == ("method", mug, "copy", (), ()) and is_const(st.value, 1) and st.aug is None and st.idx[0] == "sub" and st.idx[2] == mui
-    rep.check("CAND.store", okc, fwhere(f, st.node), "candidate = copy of the current graph with entry edges[i] set to 1",
+    edges = None
+    pos = None
+    if is_for and st.idx == ("elem", li["iter"]):
+        edges = li["iter"]
+    elif not is_for and st.idx[0] == "sub" and st.idx[2][0] == "mu" and st.idx[2][2] in counters:
+        edges, pos = st.idx[1], st.idx[2][2]
+    okc = st.base == ("method", mug, "copy", (), ()) and is_const(st.value, 1) and st.aug is None and edges is not None
+    rep.check("CAND.store", okc, fwhere(f, st.node), "candidate = copy of the current graph with one candidate entry set to 1",
               "candidate graph is %s[%s] = %s" % (fmt(st.base)[:50], fmt(st.idx)[:50], fmt(st.value)))
     if not okc:
         return
-    edges = st.idx[1]
     shuffled = edges[0] == "shuffled" and edges[2] == RNG
     rep.check("SEED.add", shuffled, fwhere(f, st.node), "candidates are shuffled by default_rng(random_state)", "candidate order does not come from the seeded generator: %s" % fmt(edges)[:80])
     lst = strip_list(edges[1]) if shuffled else strip_list(edges)
@@ -124,37 +130,68 @@ def add_rules(rep, prog):
                 why = e.why
     rep.check("CAND.pairs", okp, fwhere(f), "candidates = ordered pairs (i, j), i != j, not adjacent in either direction - both orientations of every free pair",
               "candidate pairs deviate: " + why)
-    # acceptance only under is_dag(candidate)
+    # ---- acceptance only under is_dag(candidate)
     cand = ("store", st.base, st.idx, st.value, None)
     nxg = li["next"][g]
     isd = ("call", U + "is_dag", (cand,), (("A", cand),))
     oka = nxg in (("phi", isd, cand, mug), ("phi", ("unop", "not", isd), mug, cand))
     rep.check("ACCEPT.is_dag", oka, fwhere(f, st.node), "the candidate replaces the graph only when is_dag(candidate) holds; otherwise the graph is unchanged",
               "the graph is updated as %s" % fmt(nxg)[:120])
-    rep.check("LOOP.advance", li["next"][i] in (("binop", "+", mui, ("const", 1)), ("binop", "+", ("const", 1), mui)), fwhere(f), "one candidate per round (i += 1)",
-              "candidate index is updated as %s" % fmt(li["next"][i])[:60])
-    cnt = padd(poly(("method", mug, "sum", (), ())), poly(("method", B, "sum", (), ())), -1)
-    want = frozenset([(">0", pkey(padd(poly(NE), cnt, -1))), (">0", pkey(padd(poly(("ext", "len", (edges,), ())), poly(mui), -1)))])
-    got = resolve(conj([(li["test"], True)]))
-    rep.check("LOOP.exit", got == want, fwhere(f, li["node"]), "continues while (edges added < no_edges) and (candidates left): leaves only when done or exhausted",
-              "loop condition is %s" % sorted(pred_fmt(p) for p in got))
-    # guard
+    # ---- how many edges were added so far: recomputed (graph.sum() - pattern.sum()) or an explicit counter
+    recount = padd(poly(("method", mug, "sum", (), ())), poly(("method", B, "sum", (), ())), -1)
+    counts = [pkey(recount)]
+    cnt_name = None
+    for k in counters:
+        nx = li["next"][k]
+        muk = ("mu", lid, k)
+        inc = (("binop", "+", muk, ("const", 1)), ("binop", "+", ("const", 1), muk))
+        if k != pos and nx[0] == "phi" and ((nx[1] == isd and nx[2] in inc and nx[3] == muk) or (nx[1] == ("unop", "not", isd) and nx[3] in inc and nx[2] == muk)):
+            counts.append(pkey(poly(muk)))
+            cnt_name = k
+    # every attempt happens only while fewer than no_edges edges were added (loop test or a check at the top of the round)
+    attempt = S.select("call", qname=q, target=U + "is_dag")
+    att = [c for c in attempt if lid in c.loops]
+    guard_ok = False
+    if att:
+        have = resolve(conj(att[0].path))
+        for cnt in counts:
+            d = dict(cnt)
+            lt = (">0", pkey(padd(poly(NE), d, -1)))
+            ne_ = ("!=0", PR.canon_sign_key(padd(poly(NE), d, -1)))
+            if lt in have or ne_ in have:
+                guard_ok = True
+    rep.check("LOOP.count-guard", guard_ok, fwhere(f, li["node"]), "a candidate is only tried while fewer than no_edges edges have been added (also for no_edges = 0)",
+              "candidates are tried without first checking that the requested number is not yet reached: a request that is already satisfied (e.g. no_edges = 0) keeps adding edges")
+    # ---- exhaustion: every candidate is tried at most once, none is skipped
+    if is_for:
+        rep.ok("LOOP.advance", fwhere(f, li["node"]), "iterates over the candidate list: each candidate once")
+    else:
+        mui = ("mu", lid, pos)
+        rep.check("LOOP.advance", li["next"][pos] in (("binop", "+", mui, ("const", 1)), ("binop", "+", ("const", 1), mui)), fwhere(f), "one candidate per round (i += 1)",
+                  "candidate index is updated as %s" % fmt(li["next"][pos])[:60])
+        got = resolve(conj([(li["test"], True)]))
+        left = (">0", pkey(padd(poly(("ext", "len", (edges,), ())), poly(mui), -1)))
+        rep.check("LOOP.exit", left in got and len(got) == 2, fwhere(f, li["node"]), "continues while (edges added < no_edges) and (candidates left): leaves only when done or exhausted",
+                  "loop condition is %s" % sorted(pred_fmt(p) for p in got))
+    # ---- guard
     raises = [r for r in S.select("raise", qname=q) if r.exctype == "ValueError"]
-    p_ = ("ext", "len", (B,), ())
-    pp = pmul(poly(p_), padd(poly(p_), pconst(1), -1))
-    half = {m: c / 2 for m, c in pp.items()}
     E_ = poly(("method", B, "sum", (), ()))
-    want = frozenset([(">0", pkey(padd(padd(poly(NE), half, -1), E_)))])
-    alt_p = ("ext", "len", (PA,), ())
-    pp2 = pmul(poly(alt_p), padd(poly(alt_p), pconst(1), -1))
-    want2 = frozenset([(">0", pkey(padd(padd(poly(NE), {m: c / 2 for m, c in pp2.items()}, -1), E_)))])
-    ok = len(raises) == 1 and resolve(conj(raises[0].path)) in (want, want2) and not raises[0].loops
+    wants = []
+    for p_ in (("ext", "len", (B,), ()), ("ext", "len", (PA,), ())):
+        pp = pmul(poly(p_), padd(poly(p_), pconst(1), -1))
+        wants.append(frozenset([(">0", pkey(padd(padd(poly(NE), {m: c / 2 for m, c in pp.items()}, -1), E_)))]))
+    ok = len(raises) == 1 and resolve(conj(raises[0].path)) in wants and not raises[0].loops
     rep.check("GUARD.add", ok, fwhere(f, raises[0].node if raises else None), "ValueError iff no_edges > p(p-1)/2 - |E| (boundary exact, |E| counted on the pattern)",
               "guard is %s" % [sorted(pred_fmt(p) for p in resolve(conj(r.path))) for r in raises])
     rets = S.select("return", qname=q)
     okr = len(rets) == 1 and rets[0].value == ("after", lid, g)
-    fin = padd(poly(("method", ("after", lid, g), "sum", (), ())), poly(("method", B, "sum", (), ())), -1)
-    asserted = ("==0", PR.canon_sign_key(padd(fin, poly(NE), -1))) in resolve(conj(rets[0].path)) if okr else False
+    asserted = False
+    if okr:
+        have = resolve(conj(rets[0].path))
+        fins = [padd(poly(("method", ("after", lid, g), "sum", (), ())), poly(("method", B, "sum", (), ())), -1)]
+        if cnt_name:
+            fins.append(poly(("after", lid, cnt_name)))
+        asserted = any(("==0", PR.canon_sign_key(padd(fin, poly(NE), -1))) in have for fin in fins)
     rep.check("RESULT.add", okr and asserted, fwhere(f), "returns the final graph under the assertion `edges added == no_edges`",
               "result is not guarded by the final count assertion")
 
